@@ -25,20 +25,23 @@ MapsOf(p) == CASE p = "p1" -> {"p1:8080/tcp", "p1:5353/udp@10.9.9.9"}
 AllMaps == UNION {MapsOf(p) : p \in Pods}
 StaleSets == SUBSET {"S1", "S2"}
 
-Setup(t, P) == [t EXCEPT !.hp = t.hp \cup P, !.chains = t.chains \cup P]
-Clean(t, P) == [t EXCEPT !.hp = t.hp \ P, !.chains = t.chains \ P]
-SyncAll(t, Ps) == [hp |-> Ps, chains |-> Ps, stale |-> {}]
+\* old: mappings whose chain holds the rules of an earlier pod with the same name and ports but another address
+Setup(t, P) == [t EXCEPT !.hp = t.hp \cup P, !.chains = t.chains \cup P, !.old = t.old \ P]
+SetupOld(t, P) == [t EXCEPT !.hp = t.hp \cup P, !.chains = t.chains \cup P, !.old = t.old \cup P]
+Clean(t, P) == [t EXCEPT !.hp = t.hp \ P, !.chains = t.chains \ P, !.old = t.old \ P]
+SyncAll(t, Ps) == [hp |-> Ps, chains |-> Ps, stale |-> {}, old |-> {}]
 
-Ops == {[op |-> "setup", pod |-> p] : p \in Pods} \cup {[op |-> "clean", pod |-> p] : p \in Pods}
+Ops == {[op |-> "setup", pod |-> p] : p \in Pods} \cup {[op |-> "clean", pod |-> p] : p \in Pods} \cup {[op |-> "setupold", pod |-> "p1"]}
        \cup {[op |-> "sync", pods |-> S] : S \in SUBSET Pods}
 Apply(t, o) == CASE o.op = "setup" -> Setup(t, MapsOf(o.pod))
+                 [] o.op = "setupold" -> SetupOld(t, MapsOf(o.pod))
                  [] o.op = "clean" -> Clean(t, MapsOf(o.pod))
                  [] OTHER -> SyncAll(t, UNION {MapsOf(p) : p \in o.pods})
 OpSeqs == UNION {[1..n -> Ops] : n \in 1..MaxOps}
 RECURSIVE Run(_, _, _)
 Run(t, ops, i) == IF i > Len(ops) THEN <<>> ELSE LET t2 == Apply(t, ops[i]) IN <<t2>> \o Run(t2, ops, i + 1)
 
-T0(stale) == [hp |-> {}, chains |-> {}, stale |-> stale]
+T0(stale) == [hp |-> {}, chains |-> {}, stale |-> stale, old |-> {}]
 \* laws
 CleanIsInverse == \A st \in StaleSets, p \in Pods, q \in Pods :
     LET t == Setup(T0(st), MapsOf(q)) IN p # q => Clean(Setup(t, MapsOf(p)), MapsOf(p)) = t
@@ -48,7 +51,7 @@ OthersUntouched == \A st \in StaleSets, p \in Pods, q \in Pods :
              /\ Clean(t, MapsOf(p)).stale = st
 SyncExact == \A st \in StaleSets, S \in SUBSET Pods, q \in Pods :
     LET t == SyncAll(Setup(T0(st), MapsOf(q)), UNION {MapsOf(p) : p \in S}) IN
-    t.hp = UNION {MapsOf(p) : p \in S} /\ t.chains = t.hp /\ t.stale = {}
+    t.hp = UNION {MapsOf(p) : p \in S} /\ t.chains = t.hp /\ t.stale = {} /\ t.old = {}
 ASSUME CleanIsInverse /\ OthersUntouched /\ SyncExact
 Vectors == {[stale |-> st, ops |-> os, expect |-> Run(T0(st), os, 1)] : st \in StaleSets, os \in OpSeqs}
 ASSUME JsonSerialize(OutFile, [n |-> Cardinality(Vectors), vectors |-> Vectors])
